@@ -43,7 +43,11 @@ vars == <<K, hist>>
 Line(k) == [k |-> k, e |-> 0, h |-> 0, c |-> 0, n |-> "", ch |-> "", p |-> 0, o |-> 0,
             x |-> 0, y |-> 0, v |-> 0, f |-> 0, d |-> 0]
 
-Gen0 == [kind |-> "h", e |-> 0, h |-> 0, comp |-> 0, pc |-> 1, step |-> 0, lf |-> 0, final |-> FALSE, dead |-> FALSE,
+IdleLimit == 3          \* the replay runs run() with idle_limit = 3 (harness/kernel.py to_history)
+TIMEOUT == 100          \* manager.TIMEOUT = 0.1 s, in ms as the harness logs it
+
+Gen0 == [tmo |-> -1, tick |-> FALSE, timedout |-> FALSE,
+         kind |-> "h", e |-> 0, h |-> 0, comp |-> 0, pc |-> 1, step |-> 0, lf |-> 0, final |-> FALSE, dead |-> FALSE,
          caller |-> 0, iscall |-> FALSE, spec |-> [name |-> "", ch |-> "", prio |-> 0, flags |-> 0, on |-> 0, byname |-> FALSE],
          name |-> "", ch |-> "", obj |-> 0, armed |-> FALSE, run |-> FALSE, wevent |-> 0, notified |-> FALSE]
 IsGenScript(ops) == \E i \in DOMAIN ops : ops[i][1] \in {"yield", "call", "wait"}
@@ -66,7 +70,8 @@ K0(G) == [g        |-> G,
           queue    |-> [c \in 1..Len(G.chan) |-> <<>>],   \* _queue._queue: entries <<priority, counter, event>>
           ctr      |-> [c \in 1..Len(G.chan) |-> 0],      \* _queue._counter (per manager!)
           pq       |-> [c \in 1..Len(G.chan) |-> {}],     \* _queue._priority_queue (rest of the pass)
-          tied     |-> FALSE,                              \* some pop had several minimal entries (order unspecified)
+          tied     |-> FALSE,
+          broken   |-> FALSE,                              \* the behaviour left the part of processTask that is modelled                              \* some pop had several minimal entries (order unspecified)
           flushing |-> 0,                                   \* root whose flush() is in progress
           ev       |-> <<>>,
           handling |-> 0,                                   \* _currently_handling (of the dispatching root)
@@ -88,7 +93,9 @@ K0(G) == [g        |-> G,
           tickstage|-> "",
           running  |-> FALSE,                               \* Manager._running
           run      |-> [phase |-> "off", r |-> 0, left |-> 0, exit |-> -1, raised |-> FALSE],   \* run() in progress
-          timeleft |-> 0]                                   \* generate_events._time_left of the one being dispatched
+          timeleft |-> 0,
+          idle     |-> 0,                                   \* consecutive idle waits (harness: a second thread stops the loop at IdleLimit)
+          act      |-> FALSE]                               \* a program handler or generator step ran since the last idle wait                                   \* generate_events._time_left of the one being dispatched
 
 RootK(Kx, c) == RootOf(Kx.par, c, Len(Kx.par))
 
@@ -309,11 +316,24 @@ Awake(Kx, e, r) ==
                                             /\ Kx.gens[w].wevent = Kx.ev[e].ref }
   IN [Kx EXCEPT !.gens = Force([w \in DOMAIN Kx.gens |->
                            IF w \in evs THEN [Kx.gens[w] EXCEPT !.run = TRUE, !.wevent = e]
-                           ELSE IF w \in dns THEN [Kx.gens[w] EXCEPT !.notified = TRUE]
+                           ELSE IF w \in dns THEN [Kx.gens[w] EXCEPT !.notified = TRUE, !.tick = FALSE]
                            ELSE Kx.gens[w]]),
                 !.ev[e].alertdone = @ \/ evs # {},
                 !.refresh[r] = @ \/ evs # {},
                 !.tasks = @ \cup { <<Kx.gens[w].e, w, Kx.gens[w].caller, r>> : w \in dns }]
+
+(* waitEvent's _on_tick, a generate_events handler: count the timeout down; at 0 schedule a
+   TimeoutError for the caller and withdraw the wait's handlers *)
+Countdown(Kx, r) ==
+  LET ws   == { w \in DOMAIN Kx.gens : Kx.gens[w].kind = "w" /\ Kx.gens[w].tick /\ RootK(Kx, Kx.gens[w].comp) = r }
+      fire == { w \in ws : Kx.gens[w].tmo = 0 }
+  IN IF ws = {} THEN Kx
+     ELSE [Kx EXCEPT !.gens = Force([w \in DOMAIN Kx.gens |->
+                               IF w \in fire THEN [Kx.gens[w] EXCEPT !.tick = FALSE, !.armed = FALSE, !.timedout = TRUE]
+                               ELSE IF w \in ws THEN [Kx.gens[w] EXCEPT !.tmo = @ - 1]
+                               ELSE Kx.gens[w]]),
+                   !.refresh[r] = @ \/ fire # {},
+                   !.tasks = @ \cup { <<Kx.gens[w].e, w, Kx.gens[w].caller, r>> : w \in fire }]
 
 GenScript(Kx, g) == ScriptOf(Kx.g, Kx.gens[g].h, Kx.ev[Kx.gens[g].e].name)
 RECURSIVE SuspIdx(_, _)
@@ -331,11 +351,11 @@ StepGen(Kx, g) ==
       stepl(d) == [Line("step") EXCEPT !.e = e, !.h = h, !.d = d]
   IN IF Gn.dead THEN <<Kx, "stop", 0>>
      ELSE IF Gn.final
-     THEN <<Emit([Kx EXCEPT !.gens[g].dead = TRUE], <<stepl(Gn.step + 1), [Line("gend") EXCEPT !.e = e, !.h = h]>>), "stop", 0>>
+     THEN <<Emit([Kx EXCEPT !.gens[g].dead = TRUE, !.act = TRUE], <<stepl(Gn.step + 1), [Line("gend") EXCEPT !.e = e, !.h = h]>>), "stop", 0>>
      ELSE
      LET j   == SuspIdx(ops, Gn.pc)
          seg == IF j = 0 THEN SubSeq(ops, Gn.pc, Len(ops)) ELSE SubSeq(ops, Gn.pc, j - 1)
-         K1  == Emit([Kx EXCEPT !.gens[g].step = @ + 1], <<stepl(Gn.step + 1)>>)
+         K1  == Emit([Kx EXCEPT !.gens[g].step = @ + 1, !.act = TRUE], <<stepl(Gn.step + 1)>>)
          r   == RunOps([K1 EXCEPT !.inhandler = h, !.lastfired = Gn.lf], e, h, seg, 0)
          K2  == [r[1] EXCEPT !.inhandler = 0, !.gens[g].lf = r[1].lastfired]
      IN IF r[3] = "raise"
@@ -356,10 +376,11 @@ StepGen(Kx, g) ==
                       rec == [Gen0 EXCEPT !.kind = "w", !.e = e, !.h = h, !.caller = g,
                                           !.comp = IF iscall /\ sp.on # 0 THEN sp.on ELSE Gn.comp,
                                           !.iscall = iscall, !.spec = sp, !.name = sp.name, !.obj = obj,
-                                          !.ch = IF iscall THEN "" ELSE IF obj # 0 THEN K2.ev[obj].ch ELSE sp.ch]
+                                          !.ch = IF iscall THEN "" ELSE IF obj # 0 THEN K2.ev[obj].ch ELSE sp.ch,
+                                          !.tmo = op[3]]
                   IN <<Emit([K2 EXCEPT !.gens = Append(@, rec), !.gens[g].pc = j + 1],
                             << [Line("yld") EXCEPT !.e = e, !.h = h, !.f = 1, !.x = obj,
-                                                   !.n = IF iscall THEN "call" ELSE "wait", !.d = -1] >>), "gen", w>>
+                                                   !.n = IF iscall THEN "call" ELSE "wait", !.d = op[3]] >>), "gen", w>>
 
 (* first step of a call/wait generator: callEvent fires the event; waitEvent installs its handlers *)
 StartWait(Kx, w, root) ==
@@ -368,8 +389,8 @@ StartWait(Kx, w, root) ==
   THEN LET e2 == Len(Kx.ev) + 1
            K1 == DoFire(Kx, W.comp, W.spec.name, W.spec.ch, W.spec.prio, W.spec.flags, 0, 0, 0, 0, W.e, W.h, FALSE)
        IN [K1 EXCEPT !.gens[w].obj = e2, !.gens[w].ch = K1.ev[e2].ch, !.gens[w].armed = TRUE, !.refresh[root] = TRUE,
-                     !.ev[e2].viacall = TRUE]
-  ELSE [Kx EXCEPT !.gens[w].armed = TRUE, !.refresh[root] = TRUE]
+                     !.gens[w].tick = W.tmo >= 0, !.ev[e2].viacall = TRUE]
+  ELSE [Kx EXCEPT !.gens[w].armed = TRUE, !.gens[w].tick = W.tmo >= 0, !.refresh[root] = TRUE]
 
 AddResult(Kx, e, v) == IF v # 0 THEN [Kx EXCEPT !.ev[e].results = Append(@, v)] ELSE Kx
 
@@ -400,6 +421,29 @@ ProcessTask(Kx, t) ==
                  IN IF K1.ev[e].wH = 0 THEN EventDoneR(ForceInform(K1, e), e, IF SuccessNoErr THEN FALSE ELSE K1.ev[e].errors, root)
                     ELSE K1
             [] OTHER -> TaskError([s[1] EXCEPT !.tasks = @ \ {t}, !.handling = 0], e, root, 1)   \* _stepTask has returned
+     ELSE IF Kx.gens[g].timedout
+     THEN \* the timeout task: TimeoutError is thrown into the caller
+          LET W  == Kx.gens[g]
+              cg == W.caller
+              K1 == [Kh EXCEPT !.tasks = @ \ {t}, !.gens[g].dead = TRUE]
+              K2 == Emit(K1, << [Line("resume") EXCEPT !.e = W.e, !.h = W.h, !.f = 2, !.n = "TimeoutError"] >>)
+              s  == StepGen(K2, cg)
+          IN CASE s[2] = "stop"  -> [s[1] EXCEPT !.ev[e].wH = @ - 1, !.tasks = @ \cup {<<e, cg, 0, root>>}, !.handling = 0]
+               [] s[2] = "value" ->
+                    \* what the caller yields next is re-registered wrapped in a fresh generator with the caller as
+                    \* parent; a plain value finds its way (two ticks later), None is dropped together with the caller
+                    IF s[3] = 0 THEN [s[1] EXCEPT !.handling = 0]
+                    ELSE LET wg == Len(s[1].gens) + 1
+                         IN [s[1] EXCEPT !.gens = Append(@, [Gen0 EXCEPT !.kind = "v", !.e = e, !.h = W.h, !.caller = cg, !.obj = s[3]]),
+                                         !.tasks = @ \cup {<<e, wg, cg, root>>}, !.handling = 0]
+               [] s[2] = "gen"   -> [s[1] EXCEPT !.handling = 0, !.broken = TRUE]      \* known finding: not modelled further
+               [] OTHER -> TaskError([s[1] EXCEPT !.handling = 0], e, root, 2)
+     ELSE IF Kx.gens[g].kind = "v"
+     THEN \* the wrapper generator made for a value yielded right after a TimeoutError
+          LET V == Kx.gens[g] IN
+          IF ~V.final
+          THEN [AddResult([Kx EXCEPT !.gens[g].final = TRUE], e, V.obj) EXCEPT !.handling = 0]
+          ELSE [Kx EXCEPT !.gens[g].dead = TRUE, !.ev[e].wH = @ - 1, !.tasks = (@ \ {t}) \cup {<<e, V.caller, 0, root>>}]
      ELSE \* a call/wait generator whose event is done: it hands the result to the caller (CallValue -> send)
           LET W  == Kx.gens[g]
               cg == W.caller
@@ -502,7 +546,8 @@ ExtRun(c) ==
   /\ K.par[c] = c /\ ~K.running
   /\ hist' = Append(hist, <<"run", c, 0, 0>>)
   /\ LET K1 == Emit(K, << [Line("api") EXCEPT !.n = "run", !.c = c] >>)
-         K2 == [K1 EXCEPT !.running = TRUE, !.run = [phase |-> "loop", r |-> c, left |-> 0, exit |-> -1, raised |-> FALSE]]
+         K2 == [K1 EXCEPT !.running = TRUE, !.run = [phase |-> "loop", r |-> c, left |-> 0, exit |-> -1, raised |-> FALSE],
+                          !.idle = 0, !.act = FALSE]
      IN K' = DoFireT(K2, c, "started", "", 0, 0, 10, 0, 0, 0, 0, 0, FALSE, TRUE)
 
 ExtStop(c) ==
@@ -606,8 +651,10 @@ BeginDispatch ==
                                   !.ev[e].effects = IF (K.ev[e].flags \div 4) % 2 = 1 THEN 1 ELSE @]
                  K2w == Awake(K2, e, r)
              IN K' = IF K.ev[e].name = "generate_events"
-                     THEN [K2 EXCEPT !.timeleft = IF Cardinality(K0_.pq[r]) > 0 \/ K.queue[r] # <<>> \/ ~K.running
-                                                  THEN 0 ELSE -1]
+                     THEN LET K3 == Countdown(K2, r)
+                          IN [K3 EXCEPT !.timeleft = IF Cardinality(K0_.pq[r]) > 0 \/ K.queue[r] # <<>> \/ ~K.running THEN 0
+                                                      ELSE IF \E tk \in K3.tasks : tk[4] = r THEN TIMEOUT
+                                                      ELSE -1]
                      ELSE K2w
 
 (* FallBackGenerator._on_generate_events, appended after all other handlers: with time left it
@@ -618,10 +665,14 @@ Fallback ==
   /\ UNCHANGED hist
   /\ LET e == K.cur.e IN
      IF K.timeleft = 0 THEN K' = [K EXCEPT !.ev[e].stopped = TRUE]
-     ELSE LET K1 == Emit(K, << [Line("idle") EXCEPT !.d = 1, !.x = 999999] >>)
-              K2 == Emit(K1, << [Line("api") EXCEPT !.n = "stop", !.c = K.run.r, !.x = -1, !.y = 1] >>)
-              st == DoStop(K2, -1, FALSE)
-          IN K' = [st[1] EXCEPT !.ev[e].stopped = TRUE, !.timeleft = 0]
+     ELSE LET n  == (IF K.act THEN 0 ELSE K.idle) + 1
+              K1 == Emit([K EXCEPT !.idle = n, !.act = FALSE],
+                         << [Line("idle") EXCEPT !.d = n, !.x = IF K.timeleft < 0 THEN 999999 ELSE K.timeleft] >>)
+          IN IF (n >= IdleLimit \/ K.timeleft < 0) /\ K.running
+             THEN LET K2 == Emit(K1, << [Line("api") EXCEPT !.n = "stop", !.c = K.run.r, !.x = -1, !.y = 1] >>)
+                      st == DoStop(K2, -1, FALSE)
+                  IN K' = [st[1] EXCEPT !.ev[e].stopped = TRUE, !.timeleft = 0]
+             ELSE K' = [K1 EXCEPT !.ev[e].stopped = TRUE, !.timeleft = 0]
 
 (* one handler of the event in progress, highest priority first; among equal
    priorities the lowest id (DetOrder) or any *)
@@ -637,7 +688,7 @@ Invoke(h) ==
   /\ \A h2 \in K.cur.todo : (G.H[h2].prio = G.H[h].prio) => h <= h2
   /\ UNCHANGED hist
   /\ LET e  == K.cur.e
-         K1 == Emit([K EXCEPT !.cur.todo = @ \ {h}],
+         K1 == Emit([K EXCEPT !.cur.todo = @ \ {h}, !.act = TRUE],
                     << [Line("inv") EXCEPT !.e = e, !.h = h, !.c = G.H[h].comp, !.n = K.ev[e].name] >>)
          isgen == IsGenScript(ScriptOf(G, h, K.ev[e].name))
          r  == IF isgen THEN <<K1, 0, "gen", -1>>
